@@ -32,6 +32,7 @@ func VerifHarness_C16_CreateID() {
 	c2 := zz.NondetRange("c2", 0, max)
 	id1 := h.CreateID([]byte("x"), c1)
 	id2 := h.CreateID([]byte("x"), c2)
+	zz.Assert(len(id1) > 0, "C16 an id is never empty")
 	if minLen+c1 < 8 {
 		zz.Assert(len(id1) == minLen+1, "C16 within the digest the id is the prefix plus one digest byte")
 	} else {
